@@ -159,8 +159,12 @@ impl Diagnostics {
     /// Lint levels can be configured via attributes or command line options, but these aren't applied until this runs.
     pub fn into_updated(mut self, ast: &Ast, files: &[SliceFile], options: &SliceOptions) -> Vec<Diagnostic> {
         // Helper function that checks whether a lint should be allowed according to the provided identifiers.
+        // The comparison ignores case because the '--allow' command line option accepts lint names in any case
+        // (arguments of the 'allow' attribute are validated to be spelled exactly, before we ever get here).
         fn is_lint_allowed_by<'b>(mut identifiers: impl Iterator<Item = &'b String>, lint: &Lint) -> bool {
-            identifiers.any(|identifier| identifier == "All" || identifier == lint.code())
+            identifiers.any(|identifier| {
+                identifier.eq_ignore_ascii_case("All") || identifier.eq_ignore_ascii_case(lint.code())
+            })
         }
 
         // Helper function that checks whether a lint is allowed by attributes on the provided entity.
